@@ -1,4 +1,4 @@
-// Input source shared by all contract harnesses: one body, two drivers.
+// Input source shared by all contract harnesses: one body, three drivers.
 //
 //   cfg(kani):       every draw is kani::any() -- the full domain of the type.
 //   cfg(not(kani)):  (normal toolchain, --cfg libtw2_verif) draws are taken in
@@ -6,6 +6,13 @@
 //                    holds the byte vectors of a Kani counterexample
 //                    (--concrete-playback=print).  The same contract body then
 //                    runs on the real code natively; a panic = reproduced.
+//   cfg(not(kani)) + $VERIF_SAMPLE="<iterations>:<seed>": draws come from a
+//                    small-value-biased PRNG; the body is run <iterations>
+//                    times (iterations whose assume() fails are skipped).  The
+//                    first panicking iteration is written to
+//                    $VERIF_SAMPLE_OUT<harness>.txt in the replay format above.
+//                    This is a SAMPLED check: it can only find counterexamples,
+//                    it proves nothing and is never counted as discharged.
 #![allow(dead_code)]
 
 #[cfg(not(kani))]
@@ -43,7 +50,129 @@ mod imp {
         VALS.with(|v| *v.borrow_mut() = vals);
         true
     }
+    thread_local! {
+        static RNG: RefCell<Option<u64>> = RefCell::new(None);
+        static TRACE: RefCell<Vec<Vec<u8>>> = RefCell::new(Vec::new());
+    }
+    pub struct AssumeRejected;
+    pub fn sampling() -> bool {
+        RNG.with(|r| r.borrow().is_some())
+    }
+    fn rnd() -> u64 {
+        RNG.with(|r| {
+            let mut g = r.borrow_mut();
+            let mut x = g.unwrap();
+            // xorshift64*
+            x ^= x >> 12;
+            x ^= x << 25;
+            x ^= x >> 27;
+            *g = Some(x);
+            x.wrapping_mul(0x2545F4914F6CDD1D)
+        })
+    }
+    fn sample_value(n: usize) -> Vec<u8> {
+        let max: u64 = if n >= 8 { u64::MAX } else { (1u64 << (8 * n)) - 1 };
+        let sel = rnd() % 100;
+        let v: u64 = if sel < 45 {
+            rnd() % 17
+        } else if sel < 60 {
+            // boundary values of the width and of narrower widths / sign bits
+            let k = rnd() % 14;
+            let w = [7u32, 8, 10, 15, 16, 24, 31, 32, 63][(rnd() % 9) as usize].min(8 * n as u32);
+            let p = if w >= 64 { u64::MAX } else { (1u64 << w) - 1 };
+            match k {
+                0 => max,
+                1 => max - 1,
+                2 => max / 2,
+                3 => max / 2 + 1,
+                4 | 5 => p,
+                6 | 7 => p.wrapping_add(1),
+                8 => p.wrapping_sub(1),
+                9 => max.wrapping_sub(rnd() % 17),
+                10 => 255,
+                11 => 256,
+                12 => 1024,
+                _ => 1400,
+            }
+        } else if sel < 75 {
+            rnd() % 300
+        } else {
+            rnd()
+        } & max;
+        v.to_le_bytes()[..n].to_vec()
+    }
+    pub fn next_below(n: u64) -> u64 {
+        let v = rnd() % n;
+        TRACE.with(|t| t.borrow_mut().push(v.to_le_bytes().to_vec()));
+        v
+    }
+    pub fn sample_cfg() -> Option<(u64, u64)> {
+        let c = std::env::var("VERIF_SAMPLE").ok()?;
+        let mut it = c.split(':');
+        let n = it.next()?.parse::<u64>().ok()?;
+        let seed = it.next().and_then(|s| s.parse::<u64>().ok()).unwrap_or(1);
+        Some((n, seed))
+    }
+    /// Runs `body` up to `n` times on sampled draws; on the first real panic writes the draws as a replay file.
+    pub fn sample<F: Fn()>(harness: &str, cfg: (u64, u64), body: F) {
+        let (n, seed) = cfg;
+        let mut h: u64 = 0xcbf29ce484222325;
+        for b in harness.bytes() {
+            h = (h ^ b as u64).wrapping_mul(0x100000001b3);
+        }
+        RNG.with(|r| *r.borrow_mut() = Some((seed.wrapping_mul(0x9E3779B97F4A7C15) ^ h) | 1));
+        // rejected assumptions unwind with a payload; keep the process-wide hook silent while sampling (tests of one
+        // crate run in parallel threads, so the hook is installed once and not restored)
+        static SILENCE: std::sync::Once = std::sync::Once::new();
+        SILENCE.call_once(|| std::panic::set_hook(Box::new(|_| {})));
+        let mut ran: u64 = 0;
+        let mut failed: Option<String> = None;
+        for _ in 0..n {
+            TRACE.with(|t| t.borrow_mut().clear());
+            let r = std::panic::catch_unwind(std::panic::AssertUnwindSafe(|| body()));
+            match r {
+                Ok(()) => ran += 1,
+                Err(e) => {
+                    if e.downcast_ref::<AssumeRejected>().is_some() {
+                        continue;
+                    }
+                    let msg = if let Some(s) = e.downcast_ref::<&str>() {
+                        s.to_string()
+                    } else if let Some(s) = e.downcast_ref::<String>() {
+                        s.clone()
+                    } else {
+                        "panic".to_string()
+                    };
+                    failed = Some(msg);
+                    break;
+                }
+            }
+        }
+        RNG.with(|r| *r.borrow_mut() = None);
+        println!("SAMPLED harness={} iterations={} passed_precondition={}", harness, n, ran);
+        if let Some(msg) = failed {
+            let mut text = format!("harness {}\n# sampled counterexample (seed {}): {}\n", harness, seed, msg.replace('\n', " "));
+            TRACE.with(|t| {
+                for v in t.borrow().iter() {
+                    let l: Vec<String> = v.iter().map(|b| b.to_string()).collect();
+                    text.push_str(&l.join(" "));
+                    text.push('\n');
+                }
+            });
+            if let Ok(prefix) = std::env::var("VERIF_SAMPLE_OUT") {
+                let _ = std::fs::write(format!("{}{}.txt", prefix, harness), &text);
+            }
+            println!("SAMPLED-COUNTEREXAMPLE harness={} panic={}", harness, msg.replace('\n', " "));
+            panic!("sampled counterexample for {}: {}", harness, msg);
+        }
+        assert!(ran > 0, "sampled harness {}: no iteration satisfied the precondition (vacuous)", harness);
+    }
     pub fn next(n: usize) -> Vec<u8> {
+        if sampling() {
+            let v = sample_value(n);
+            TRACE.with(|t| t.borrow_mut().push(v.clone()));
+            return v;
+        }
         let v = VALS.with(|v| v.borrow_mut().pop());
         match v {
             Some(v) => {
@@ -59,6 +188,14 @@ mod imp {
 #[cfg(not(kani))]
 pub fn load(harness: &str) -> bool {
     imp::load(harness)
+}
+#[cfg(not(kani))]
+pub fn sample_cfg() -> Option<(u64, u64)> {
+    imp::sample_cfg()
+}
+#[cfg(not(kani))]
+pub fn sample<F: Fn()>(harness: &str, cfg: (u64, u64), body: F) {
+    imp::sample(harness, cfg, body)
 }
 
 macro_rules! draw_fn {
@@ -83,6 +220,23 @@ draw_fn!(u64, u64, 8);
 draw_fn!(i32, i32, 4);
 draw_fn!(i64, i64, 8);
 draw_fn!(usize, usize, 8);
+
+/// a usize in 0..=max (Kani: any value with that assumption; sampling: uniform; replay: the recorded value)
+#[cfg(kani)]
+pub fn usize_le(max: usize) -> usize {
+    let v: usize = kani::any();
+    kani::assume(v <= max);
+    v
+}
+#[cfg(not(kani))]
+pub fn usize_le(max: usize) -> usize {
+    if imp::sampling() {
+        return imp::next_below(max as u64 + 1) as usize;
+    }
+    let v = usize();
+    assert!(v <= max, "replay: counterexample violates the harness precondition");
+    v
+}
 
 #[cfg(kani)]
 pub fn bool() -> bool {
@@ -125,6 +279,12 @@ pub fn assume(c: bool) {
 }
 #[cfg(not(kani))]
 pub fn assume(c: bool) {
+    if imp::sampling() {
+        if !c {
+            std::panic::panic_any(imp::AssumeRejected);
+        }
+        return;
+    }
     assert!(c, "replay: counterexample violates the harness precondition");
 }
 
@@ -148,6 +308,9 @@ macro_rules! harness {
         #[test]
         pub fn $name() {
             if draw::load(stringify!($name)) $body
+            else if let Some(cfg) = draw::sample_cfg() {
+                draw::sample(stringify!($name), cfg, || $body)
+            }
         }
     };
     ($name:ident, $body:block) => {
@@ -158,6 +321,9 @@ macro_rules! harness {
         #[test]
         pub fn $name() {
             if draw::load(stringify!($name)) $body
+            else if let Some(cfg) = draw::sample_cfg() {
+                draw::sample(stringify!($name), cfg, || $body)
+            }
         }
     };
 }
